@@ -47,13 +47,12 @@ class Taint:
         if o[0] == "v":
             if (fn.name, o[1]) in self.vals:
                 return True
-        if o[0] in ("v", "ce"):
+        if o[0] in ("v", "ce", "gv"):
             r = root(fn, o)
             if r[0] in ("alloca", "call", "param") and (fn.name, r[1] if r[0] != "param" else fn.params[r[1]].id) in self.objs:
                 return True
-        if o[0] == "ce":
-            # address of a source array field of a global? not used
-            return False
+            if r[0] == "global" and ("@", r[1]) in self.objs:
+                return True         # a global / function-local static buffer that received tainted bytes
         return False
 
     def _strip_zero_gep(self, fn, o):
@@ -96,6 +95,8 @@ class Taint:
             return ch
         if r[0] == "phi":
             return self._mark((fn.name, r[1]), reason)
+        if r[0] == "global":
+            return self._mark(("@", r[1]), reason, "o")
         return False
 
     def _addr_field(self, fn, o):
@@ -223,6 +224,8 @@ class Taint:
                     rid = r[1] if r[0] != "param" else cur_fn.params[r[1]].id
                     if (cur_fn.name, rid) in self.objs:
                         k = ("o", (cur_fn.name, rid))
+                elif r[0] == "global" and ("@", r[1]) in self.objs:
+                    k = ("o", ("@", r[1]))
             if k is None:
                 break
             w = self.why.get(k)
